@@ -24,16 +24,16 @@ type FontInfo struct {
 	CmapIDs                            []string // "platform/encoding" of each cmap record
 	FeatTags                           []string // GSUB ∪ GPOS feature tags
 	GoMorx                             bool
-	Zero                               map[rune]bool // code points the Go cmap maps to glyph 0
-	ZeroCommon                         bool          // ... including U+0020, U+25CC, U+2010 or U+2011 (consulted for almost any text)
-	ZeroForms                          bool          // ... including Arabic / Hebrew presentation forms or the Thai PUA (fallback shaping)
-	GoGPOSDropped, GoGSUBDropped       bool          // the reference sees the table, the Go loader produced no lookups
-	ArabicGSUB                         bool          // GSUB has one of isol/fina/medi/init (otherwise Arabic fallback shaping is used)
-	ArabicFallbackLig                  bool          // cmap maps a first component of the synthesised fallback ligature lookups
-	NoOutlines                         bool          // no glyf / CFF / CFF2 table
-	AttachTags                         map[string]bool // GPOS feature tags whose lookups contain cursive / mark attachment subtables
+	Zero                               map[rune]bool      // code points the Go cmap maps to glyph 0
+	ZeroCommon                         bool               // ... including U+0020, U+25CC, U+2010 or U+2011 (consulted for almost any text)
+	ZeroForms                          bool               // ... including Arabic / Hebrew presentation forms or the Thai PUA (fallback shaping)
+	GoGPOSDropped, GoGSUBDropped       bool               // the reference sees the table, the Go loader produced no lookups
+	ArabicGSUB                         bool               // GSUB has one of isol/fina/medi/init (otherwise Arabic fallback shaping is used)
+	ArabicFallbackLig                  bool               // cmap maps a first component of the synthesised fallback ligature lookups
+	NoOutlines                         bool               // no glyf / CFF / CFF2 table
+	AttachTags                         map[string]bool    // GPOS feature tags whose lookups contain cursive / mark attachment subtables
 	PairPos2Shadow                     [][]tables.PairPos // lookups where a PairPosFormat2 subtable is followed by another pair subtable
-	PairPos2Class0                     bool          // GPOS has a PairPosFormat2 subtable with ValueFormat2 != 0 or non-zero values in the class2 = 0 column
+	PairPos2Class0                     bool               // GPOS has a PairPosFormat2 subtable with ValueFormat2 != 0 or non-zero values in the class2 = 0 column
 }
 
 // Kinds lists the shaping-relevant table kinds for coverage classes.
